@@ -156,7 +156,7 @@ pub fn run(tier: Tier) {
     }
 
     // ---------------- non-malleability
-    let (corpus, cst) = build_corpus(tier.pick(2, 2), &["b0", "b5"], &["t1"], &[None]);
+    let (corpus, cst) = build_corpus(tier.pick(3, 3), &["b0", "b5"], &["t1"], &[None]);
     let legit_set: std::collections::HashSet<String> = corpus.tokens.iter().map(|c| format!("{:?}", signed_content(&c.proto).unwrap())).collect();
     let legit = |sc: &Signed| legit_set.contains(&format!("{:?}", sc));
     let variants = AtomicUsize::new(0);
